@@ -52,10 +52,30 @@ def main():
         out["special"][name] = sp
         helper = simcls(s)
         sm = []
+        for i, d in enumerate(SIM_D):
+            try:
+                # three ways to get there: a helper that has been used before, a fresh helper whose first call
+                # this is (the channel still holds another voltage), and the same distance set again after the
+                # channel voltage was changed behind the helper's back
+                how = i % 3
+                h = helper
+                if how == 1:
+                    sim.setVoltage(1.234)
+                    h = simcls(s)
+                h.setDistance(d)
+                if how == 2:
+                    sim.setVoltage(0.777)
+                    h.setDistance(d)
+                sm.append({"d": ucm(d), "obs": ucm(s.getDistance()), "helper_ok": h.getDistance() == d, "how": how})
+            except Exception as e:  # noqa
+                sm.append({"d": ucm(d), "obs": -1, "helper_ok": False, "err": str(e)})
+        # every distance also as the very first call on a fresh helper
         for d in SIM_D:
             try:
-                helper.setDistance(d)
-                sm.append({"d": ucm(d), "obs": ucm(s.getDistance()), "helper_ok": helper.getDistance() == d})
+                sim.setVoltage(2.5)
+                h = simcls(s)
+                h.setDistance(d)
+                sm.append({"d": ucm(d), "obs": ucm(s.getDistance()), "helper_ok": h.getDistance() == d, "how": 3})
             except Exception as e:  # noqa
                 sm.append({"d": ucm(d), "obs": -1, "helper_ok": False, "err": str(e)})
         out["sim"][name] = sm
